@@ -946,6 +946,13 @@ __guess_dtyp(struct strpd_s d)
 			res.bizda.bd = bd;
 			res.fix = 1U;
 		}
+		if (d.flags.ab == BIZDA_BEFORE) {
+			/* counted before ultimo, the getters, converters and
+			 * adders all count after ultimo, so hold it that way */
+			bp = __make_bizda_param(BIZDA_AFTER, 0);
+			res.param = bp.u;
+			res.bizda.bd = bd - res.bizda.bd;
+		}
 #endif	/* WITH_FAST_ARITH */
 	} else {
 		/* anything else is bollocks for now */
